@@ -74,7 +74,7 @@ def run(tier, seed):
     if r["violation"]:
         raise vlib.InfraError("MiPurgeConc: the model of the concurrent purge schedule violates its invariants (specification error or the code changed):\n%s" % r["out"][-3000:])
     cov["purge_schedule_model"]["MiPurgeConc"] = {"distinct_states": r["distinct"], "invariants": ["Quiescent", "NeverPurgeInUse"], "config": "MiPurgeConc_mc.cfg" if q else "MiPurgeConc_mc_thorough.cfg"}
-    cov["concurrent_part"] = {k: cov2[k] for k in ("traces_validated_against_impl", "trace_events_validated", "programs", "strategies") if k in cov2}
+    cov["concurrent_part"] = {k: cov2[k] for k in ("traces_validated_against_impl", "trace_events_validated", "program_names", "strategies") if k in cov2}
     cov["arena_dumps_validated"] = cov.get("arena_dumps_validated", 0) + cov2.get("arena_dumps_validated", 0)
     return V.finish("model_checking", cov, assumptions=assumptions + [
         "TLC 1.8.0 and CommunityModules trusted; the OS shim reports each mmap/munmap/mprotect/madvise call faithfully (it performs the real call unless the fault plan refuses it)",
